@@ -34,9 +34,16 @@ import (
 //     the repo's packages) the global is recorded as SHARED by that entry point (by whom: see the comment lines).
 //
 // Input grammar / fail closed (naming file:line): a `go` statement, a conversion from or to unsafe.Pointer, a
-// cgo package, a select/send on a channel loaded from a global, a reflect call on a value that comes from a
-// global, or an SSA instruction form not listed in useAddr/useVal, in any reachable function of the repo's
-// packages, is a TRANSLATOR-FAILED.
+// cgo package, a select/send/receive on a channel loaded from a global, a reflect call on a value that comes
+// from a global, a call with such a value that has no resolvable callee, or an SSA instruction form not listed
+// in (*fpAnalysis).use, in any reachable function of the repo's packages, is a TRANSLATOR-FAILED.
+// Not followed (trusted base): what third-party and standard-library code does with its own package-level
+// state; references after they were recorded as SHARED; calls made through reflect.Value.Call/Method.
+//
+// Self-test: the same analysis first runs on verifharness/internal/fptest, a package of small functions whose
+// footprints are stated in their doc comments (stores through loaded slices / pointers / maps, through
+// parameters, returned references, closures, interface and func-value calls, init-only tables, append/copy);
+// any difference is a TRANSLATOR-FAILED.
 func init() { register("footprint", genFootprint) }
 
 type fpEntry struct {
@@ -71,6 +78,12 @@ var fpEntries = []fpEntry{
 	{"milenage.Milenage_auts", "free5gclib/milenage", "", "Milenage_auts", true, nil},
 	{"tglib.EncodeNasPduWithSecurity", "tglib", "", "EncodeNasPduWithSecurity", true, nil},
 	{"tglib.GetNasPdu", "tglib", "", "GetNasPdu", true, nil},
+	// the emulator's own pure per-UE helpers (listed with the builders)
+	{"stgutg.CreateUE", "stgutg", "", "CreateUE", false, nil},
+	{"stgutg.EncodeSuci", "stgutg", "", "EncodeSuci", false, nil},
+	{"stgutg.FindPDUSessionResourceSetupListSUReq", "stgutg", "", "FindPDUSessionResourceSetupListSUReq", false, nil},
+	{"stgutg.DecodePDUSessionResourceSetupRequestTransfer", "stgutg", "", "DecodePDUSessionResourceSetupRequestTransfer", false, nil},
+	{"stgutg.DecodePDUSessionNASPDU", "stgutg", "", "DecodePDUSessionNASPDU", false, nil},
 }
 
 // fpTrustedPkgs: third-party packages that are handed values loaded from the repo's globals and are in the
@@ -111,13 +124,29 @@ func fpOwnFunc(f *ssa.Function) bool {
 	return false
 }
 
+// fpIsInit: the package initialiser or a declared init function (they run before main, happens-before every
+// goroutine). A closure created there may run later and is NOT exempt.
 func fpIsInit(f *ssa.Function) bool {
-	for g := f; g != nil; g = g.Parent() {
-		if g.Name() == "init" || strings.HasPrefix(g.Name(), "init#") {
-			return true
+	return f.Parent() == nil && f.Signature.Recv() == nil && (f.Name() == "init" || strings.HasPrefix(f.Name(), "init#"))
+}
+
+// fpRootOfAddr: the global whose own storage the address lies in (through FieldAddr / IndexAddr chains), or nil
+func fpRootOfAddr(v ssa.Value) *ssa.Global {
+	for {
+		switch x := v.(type) {
+		case *ssa.Global:
+			return x
+		case *ssa.FieldAddr:
+			v = x.X
+		case *ssa.IndexAddr:
+			if _, isPtr := x.X.Type().Underlying().(*types.Pointer); !isPtr {
+				return nil
+			}
+			v = x.X
+		default:
+			return nil
 		}
 	}
-	return false
 }
 
 // hasRefs: can a value of this type hold a reference to mutable memory? (strings are immutable)
@@ -410,7 +439,8 @@ func (a *fpAnalysis) use(it fpItem, instr ssa.Instruction) {
 			if it.addr {
 				a.write(i, root) // address of the global stored somewhere: escapes
 				a.share(i, root, "address stored")
-			} else {
+			} else if fpRootOfAddr(i.Addr) != root {
+				// (storing it back into the variable it came from shares nothing new)
 				a.share(i, root, "reference stored into other memory")
 			}
 		}
@@ -496,7 +526,23 @@ func (a *fpAnalysis) use(it fpItem, instr ssa.Instruction) {
 	}
 }
 
-func genFootprint() error {
+type fpRow struct {
+	reads, writes, shares map[*ssa.Global]bool
+	how                   map[*ssa.Global]map[string]bool
+	writers               map[*ssa.Global]map[string]bool
+	nOwn, nAll            int
+}
+
+type fpResult struct {
+	entries []fpEntry
+	rows    []fpRow
+	globals map[*ssa.Global]bool
+	a       *fpAnalysis
+}
+
+// fpRun analyses either the repo's packages (entry points + builders) or, selfTest, the self-test package alone
+// (so that its functions cannot leak into the repo's call graph).
+func fpRun(selfTest bool) (*fpResult, error) {
 	harness := os.Getenv("VERIF_HARNESS")
 	if harness == "" {
 		harness = "/verif/harness"
@@ -511,11 +557,14 @@ func genFootprint() error {
 	for p := range patSet {
 		pats = append(pats, p)
 	}
-	pats = append(pats, "tglib/ngapTestpacket", "free5gclib/nas/nasTestpacket", fpSelfTest)
+	pats = append(pats, "tglib/ngapTestpacket", "free5gclib/nas/nasTestpacket")
 	sort.Strings(pats)
+	if selfTest {
+		pats = []string{fpSelfTest}
+	}
 	pkgs, err := packages.Load(cfg, pats...)
 	if err != nil {
-		return err
+		return nil, err
 	}
 	bad := false
 	packages.Visit(pkgs, nil, func(p *packages.Package) {
@@ -535,7 +584,7 @@ func genFootprint() error {
 		}
 	})
 	if bad {
-		return fail("packages did not load cleanly (or use cgo)")
+		return nil, fail("packages did not load cleanly (or use cgo)")
 	}
 	prog, _ := ssautil.AllPackages(pkgs, ssa.InstantiateGenerics)
 	prog.Build()
@@ -546,10 +595,14 @@ func genFootprint() error {
 	// the message builders / constructors (every exported function of these packages) are listed after the
 	// property's entry points, as group "builder"
 	fpEntries := append([]fpEntry{}, fpEntries...)
-	for _, bp := range []struct{ pkg, short string }{{"tglib", "tglib"}, {"tglib/ngapTestpacket", "ngapTestpacket"}, {"free5gclib/nas/nasTestpacket", "nasTestpacket"}} {
+	builderPkgs := []struct{ pkg, short string }{{"tglib", "tglib"}, {"tglib/ngapTestpacket", "ngapTestpacket"}, {"free5gclib/nas/nasTestpacket", "nasTestpacket"}}
+	if selfTest {
+		fpEntries, builderPkgs = nil, nil
+	}
+	for _, bp := range builderPkgs {
 		p := prog.ImportedPackage(bp.pkg)
 		if p == nil {
-			return fail("package %s not in the program", bp.pkg)
+			return nil, fail("package %s not in the program", bp.pkg)
 		}
 		var names []string
 		for n, m := range p.Members {
@@ -585,7 +638,7 @@ func genFootprint() error {
 				}
 				line := strings.TrimSpace(strings.SplitN(fd.Doc.Text(), "\n", 2)[0])
 				if !strings.HasPrefix(line, fd.Name.Name+":") {
-					return fail("%s: self-test function %s has no expectation comment", lp.Fset.Position(fd.Pos()), fd.Name.Name)
+					return nil, fail("%s: self-test function %s has no expectation comment", lp.Fset.Position(fd.Pos()), fd.Name.Name)
 				}
 				line = strings.TrimPrefix(line, fd.Name.Name+":")
 				if i := strings.Index(line, "("); i >= 0 {
@@ -603,7 +656,7 @@ func genFootprint() error {
 						cur = &ex.s
 					default:
 						if cur == nil {
-							return fail("%s: malformed expectation for %s", lp.Fset.Position(fd.Pos()), fd.Name.Name)
+							return nil, fail("%s: malformed expectation for %s", lp.Fset.Position(fd.Pos()), fd.Name.Name)
 						}
 						*cur = append(*cur, tok)
 					}
@@ -613,15 +666,15 @@ func genFootprint() error {
 			}
 		}
 	}
-	if nSelf < 20 {
-		return fail("self-test package %s: only %d documented functions found", fpSelfTest, nSelf)
+	if selfTest && nSelf < 20 {
+		return nil, fail("self-test package %s: only %d documented functions found", fpSelfTest, nSelf)
 	}
 	// entry functions
 	entries := make([]*ssa.Function, len(fpEntries))
 	for k, e := range fpEntries {
 		p := prog.ImportedPackage(e.pkg)
 		if p == nil {
-			return fail("package %s not in the program", e.pkg)
+			return nil, fail("package %s not in the program", e.pkg)
 		}
 		var f *ssa.Function
 		if e.recv == "" {
@@ -629,7 +682,7 @@ func genFootprint() error {
 		} else {
 			t := p.Type(e.recv)
 			if t == nil {
-				return fail("type %s.%s not found", e.pkg, e.recv)
+				return nil, fail("type %s.%s not found", e.pkg, e.recv)
 			}
 			sel := prog.MethodSets.MethodSet(types.NewPointer(t.Type())).Lookup(p.Pkg, e.fn)
 			if sel != nil {
@@ -637,7 +690,7 @@ func genFootprint() error {
 			}
 		}
 		if f == nil {
-			return fail("entry point %s not found", e.name)
+			return nil, fail("entry point %s not found", e.name)
 		}
 		entries[k] = f
 	}
@@ -708,20 +761,14 @@ func genFootprint() error {
 	}
 	if len(a.errs) > 0 {
 		sort.Strings(a.errs)
-		return fail("%d construct(s) outside the input grammar:\n  %s", len(a.errs), strings.Join(a.errs, "\n  "))
+		return nil, fail("%d construct(s) outside the input grammar:\n  %s", len(a.errs), strings.Join(a.errs, "\n  "))
 	}
 
 	// per entry union
-	type row struct {
-		reads, writes, shares map[*ssa.Global]bool
-		how                   map[*ssa.Global]map[string]bool
-		writers               map[*ssa.Global]map[string]bool
-		nOwn, nAll            int
-	}
-	rows := make([]row, len(entries))
+	rows := make([]fpRow, len(entries))
 	globals := map[*ssa.Global]bool{}
 	for k := range entries {
-		r := row{map[*ssa.Global]bool{}, map[*ssa.Global]bool{}, map[*ssa.Global]bool{}, map[*ssa.Global]map[string]bool{}, map[*ssa.Global]map[string]bool{}, 0, len(reach[k])}
+		r := fpRow{map[*ssa.Global]bool{}, map[*ssa.Global]bool{}, map[*ssa.Global]bool{}, map[*ssa.Global]map[string]bool{}, map[*ssa.Global]map[string]bool{}, 0, len(reach[k])}
 		for f := range reach[k] {
 			if !fpOwnFunc(f) || fpIsInit(f) {
 				continue
@@ -756,10 +803,23 @@ func genFootprint() error {
 		}
 		rows[k] = r
 	}
+	return &fpResult{fpEntries, rows, globals, a}, nil
+}
+
+func genFootprint() error {
+	self, err := fpRun(true)
+	if err != nil {
+		return err
+	}
+	res, err := fpRun(false)
+	if err != nil {
+		return err
+	}
+	fpEntries, rows, globals, a := res.entries, res.rows, res.globals, res.a
 	gname := func(g *ssa.Global) string { return g.Pkg.Pkg.Path() + "." + g.Name() }
 	// self-test verdict: the computed footprint over the self-test package's variables must be the stated one
 	var selfErrs []string
-	for k, e := range fpEntries {
+	for k, e := range self.entries {
 		if e.self == nil {
 			continue
 		}
@@ -778,7 +838,7 @@ func genFootprint() error {
 			sort.Strings(ys)
 			return strings.Join(ys, " ")
 		}
-		r := rows[k]
+		r := self.rows[k]
 		if got(r.reads) != want(e.self.r) || got(r.writes) != want(e.self.w) || got(r.shares) != want(e.self.s) {
 			selfErrs = append(selfErrs, fmt.Sprintf("%s: computed R[%s] W[%s] S[%s], stated R[%s] W[%s] S[%s]", e.name,
 				got(r.reads), got(r.writes), got(r.shares), want(e.self.r), want(e.self.w), want(e.self.s)))
@@ -786,11 +846,6 @@ func genFootprint() error {
 	}
 	if len(selfErrs) > 0 {
 		return fail("self-test of the footprint analysis failed:\n  %s", strings.Join(selfErrs, "\n  "))
-	}
-	for g := range globals {
-		if g.Pkg.Pkg.Path() == fpSelfTest {
-			delete(globals, g)
-		}
 	}
 	var gl []*ssa.Global
 	for g := range globals {
@@ -877,7 +932,7 @@ func genFootprint() error {
 		b.WriteString("]\n")
 	}
 	table("footprint", "the property's entry points: codecs, NAS protection, key derivation", true)
-	table("builders", "every other exported function of tglib, tglib/ngapTestpacket and nas/nasTestpacket (message builders)", false)
+	table("builders", "the emulator's pure per-UE helpers (stgutg) and every other exported function of tglib, tglib/ngapTestpacket and nas/nasTestpacket (message builders)", false)
 	b.WriteString("\nend Stgutg.Gen.Footprint\n")
 	return writeIfChanged("Footprint.lean", b.String())
 }
